@@ -1030,7 +1030,12 @@ func (c *Client) handleModifyResponse(m *spb.ModifyResponse) error {
 
 	for _, r := range m.Result {
 		res, err := c.clearPendingOp(r)
-		c.qs.resultq = append(c.qs.resultq, res)
+		if res != nil {
+			// A result that cannot be matched to an operation (err != nil) has no
+			// OpResult; a nil entry in the queue would be handed to every reader of
+			// the results, and makes AckResult panic.
+			c.qs.resultq = append(c.qs.resultq, res)
+		}
 		if err != nil {
 			return fmt.Errorf("cannot remove pending operation %d, %v", r.Id, err)
 		}
@@ -1300,6 +1305,9 @@ func (c *Client) AckResult(res ...*OpResult) error {
 	defer c.qs.resultMu.RUnlock()
 	nrq := []*OpResult{}
 	for _, r := range c.qs.resultq {
+		if r == nil {
+			continue
+		}
 		_, ok := toACK[r.OperationID]
 		if !ok {
 			nrq = append(nrq, r)
